@@ -14,7 +14,7 @@ from checks import c02
 
 ID = "C03"
 LEVEL = "exploration"
-RULE = ("histories of 1..6 request lines against one manager lifetime: mutated documented "
+RULE = ("complete enumeration of single-mutation requests (each followed by a version request), coverage-guided atheris campaigns (raw lines on empty and seeded corpus, Hypothesis-decoded histories), and histories of 1..6 request lines against one manager lifetime: mutated documented "
         "requests, arbitrary JSON, raw bytes / invalid UTF-8, pathological documents (deep "
         "nesting, huge integers), oversized well-typed requests, hostile content; oracle per "
         "line = exactly one JSON-object line with int errorcode, no shutdown signal, next line "
